@@ -26,6 +26,13 @@ const (
 )
 
 func resolveErgoDir(start string) (string, error) {
+	// Walk the absolute path: a relative start ("." or "..", as given with --dir) has no
+	// parent to climb to lexically, so discovery would stop at the first directory and the
+	// returned store path (and everything derived from it) would stay relative.
+	start, err := filepath.Abs(start)
+	if err != nil {
+		return "", err
+	}
 	current := start
 	for {
 		candidate := filepath.Join(current, dataDirName)
